@@ -3,6 +3,7 @@
 # For every patch: scratch copy of /repo, apply, analyse with ALL properties in one process, remove the copy.
 # Prints one line per patch: which properties/rules reported it. Nothing is executed or left behind.
 . /verif/env.sh
+export GOFLAGS="$GOFLAGS -trimpath"
 one() {
   f="$1"; d=$(mktemp -d /tmp/rcmx.XXXXXX)
   rsync -a --exclude .git --exclude examples /repo/ "$d/"
